@@ -441,59 +441,66 @@ theorem delayTable_spec {α : Type} (dec : Nat → α) (kvs : List (String × Js
 
 /-! ### vehicle parameters -/
 
-/-- `(Distance, DistanceUnit)`: exactly a two-element array of a number and a unit name, read as that
-number in that unit -/
+/-- `(Distance, DistanceUnit)`: exactly a two-element array of a number and a unit — the unit's name
+as a string or as the single key of an object with value `null` (serde's two forms of a unit
+variant) —, read as that number in that unit -/
 theorem dimOfJson_iff {α : Type} (dec : Nat → α) (j : Option Json) (x : α) (u : DistanceUnit) :
-    dimOfJson dec j = some (x, u) ↔ ∃ l b, j = some (.arr [.num l b, .str u.name]) ∧ x = dec b := by
+    dimOfJson dec j = some (x, u) ↔
+      ∃ l b uj, j = some (.arr [.num l b, uj]) ∧ unitName? false uj = some u.name ∧ x = dec b := by
   unfold dimOfJson
   split
-  · rename_i l b s
-    cases hu : DistanceUnit.ofName? s with
-    | none =>
-      simp only [reduceCtorEq, Option.some.injEq, Json.arr.injEq, List.cons.injEq, Json.num.injEq,
-        Json.str.injEq, and_true, false_iff, not_exists, not_and]
-      rintro l' b' ⟨_, rfl⟩ _
-      rw [(distanceUnit_ofName_iff _ u).2 rfl] at hu; cases hu
-    | some du =>
-      have hs := (distanceUnit_ofName_iff _ _).1 hu
-      subst hs
-      simp only [Option.some.injEq, Prod.mk.injEq, Json.arr.injEq, List.cons.injEq, Json.num.injEq,
-        Json.str.injEq, and_true]
-      constructor
-      · rintro ⟨rfl, rfl⟩; exact ⟨l, b, ⟨⟨rfl, rfl⟩, rfl⟩, rfl⟩
-      · rintro ⟨l', b', ⟨⟨_, rfl⟩, hn⟩, rfl⟩
-        refine ⟨rfl, ?_⟩
-        cases du <;> cases u <;> simp_all [DistanceUnit.name]
+  · rename_i l b uj
+    constructor
+    · intro h
+      unfold unitOfJson at h
+      cases hn : unitName? false uj with
+      | none => simp [hn] at h
+      | some s =>
+        simp only [hn] at h
+        cases hu : DistanceUnit.ofName? s with
+        | none => simp [hu] at h
+        | some du =>
+          simp only [hu, Option.some.injEq, Prod.mk.injEq] at h
+          obtain ⟨rfl, rfl⟩ := h
+          have hs := (distanceUnit_ofName_iff _ _).1 hu
+          exact ⟨l, b, uj, rfl, by rw [hn, hs], rfl⟩
+    · rintro ⟨l', b', uj', hj, hn, rfl⟩
+      simp only [Option.some.injEq, Json.arr.injEq, List.cons.injEq, Json.num.injEq, and_true] at hj
+      obtain ⟨⟨_, rfl⟩, rfl⟩ := hj
+      simp only [unitOfJson, hn, (distanceUnit_ofName_iff _ u).2 rfl]
   · rename_i hne
     simp only [reduceCtorEq, false_iff, not_exists, not_and]
-    rintro l b rfl
-    exact absurd rfl (hne l b u.name)
+    rintro l b uj rfl
+    exact absurd rfl (hne l b uj)
 
 theorem weightOfJson_iff {α : Type} (dec : Nat → α) (j : Option Json) (x : α) (u : WeightUnit) :
-    weightOfJson dec j = some (x, u) ↔ ∃ l b, j = some (.arr [.num l b, .str u.name]) ∧ x = dec b := by
+    weightOfJson dec j = some (x, u) ↔
+      ∃ l b uj, j = some (.arr [.num l b, uj]) ∧ unitName? false uj = some u.name ∧ x = dec b := by
   unfold weightOfJson
   split
-  · rename_i l b s
-    cases hu : WeightUnit.ofName? s with
-    | none =>
-      simp only [reduceCtorEq, Option.some.injEq, Json.arr.injEq, List.cons.injEq, Json.num.injEq,
-        Json.str.injEq, and_true, false_iff, not_exists, not_and]
-      rintro l' b' ⟨_, rfl⟩ _
-      rw [(weightUnit_ofName_iff _ u).2 rfl] at hu; cases hu
-    | some du =>
-      have hs := (weightUnit_ofName_iff _ _).1 hu
-      subst hs
-      simp only [Option.some.injEq, Prod.mk.injEq, Json.arr.injEq, List.cons.injEq, Json.num.injEq,
-        Json.str.injEq, and_true]
-      constructor
-      · rintro ⟨rfl, rfl⟩; exact ⟨l, b, ⟨⟨rfl, rfl⟩, rfl⟩, rfl⟩
-      · rintro ⟨l', b', ⟨⟨_, rfl⟩, hn⟩, rfl⟩
-        refine ⟨rfl, ?_⟩
-        cases du <;> cases u <;> simp_all [WeightUnit.name]
+  · rename_i l b uj
+    constructor
+    · intro h
+      unfold unitOfJson at h
+      cases hn : unitName? false uj with
+      | none => simp [hn] at h
+      | some s =>
+        simp only [hn] at h
+        cases hu : WeightUnit.ofName? s with
+        | none => simp [hu] at h
+        | some du =>
+          simp only [hu, Option.some.injEq, Prod.mk.injEq] at h
+          obtain ⟨rfl, rfl⟩ := h
+          have hs := (weightUnit_ofName_iff _ _).1 hu
+          exact ⟨l, b, uj, rfl, by rw [hn, hs], rfl⟩
+    · rintro ⟨l', b', uj', hj, hn, rfl⟩
+      simp only [Option.some.injEq, Json.arr.injEq, List.cons.injEq, Json.num.injEq, and_true] at hj
+      obtain ⟨⟨_, rfl⟩, rfl⟩ := hj
+      simp only [unitOfJson, hn, (weightUnit_ofName_iff _ u).2 rfl]
   · rename_i hne
     simp only [reduceCtorEq, false_iff, not_exists, not_and]
-    rintro l b rfl
-    exact absurd rfl (hne l b u.name)
+    rintro l b uj rfl
+    exact absurd rfl (hne l b uj)
 
 /-- `VehicleParameters::from_query` succeeds exactly on a query whose `vehicle_parameters` has all six
 fields well-formed, and then returns them as they stand -/
